@@ -1217,6 +1217,66 @@ Section CHAIN.
       destruct (sem_agg_inv fp varpop stddevpop fp_inj (agg_f a) _ Hc2 Hn2) as [Hc3 Hn3].
       destruct (cmp_rows_inv (agg_cmp a) _ Hc3 Hn3). auto.
   Qed.
+
+  (* --- topk / bottomk over a script answered from the roll-up table --- *)
+  Lemma m15_agg_correct c base fpp a :
+    (match lra_f (agg_lra a) with FRate | FCountOverTime => true | _ => false end) = true ->
+    (exists k, 0 < k /\ lra_dur_ns (agg_lra a) = 15000000000 * k) ->
+    forallb m15_stage_ok (sel_pipeline (lra_sel (agg_lra a))) = true ->
+    consistent base -> nonneg base ->
+    exists rows, sem (fst (m15_agg fpp a)) c base = Some rows /\
+                 ref_aggop to_float varpop stddevpop a (map entry_of base) = Some (map strip rows) /\ consistent rows /\ nonneg rows.
+  Proof.
+    intros Hf Hw Hst Hc Hn. unfold m15_agg. cbn [fst]. unfold ref_aggop.
+    rewrite sem_cmp_opt. cbn [LogqlMetricSem.sem]. rewrite sem_bw_opt.
+    destruct (m15_lra_correct c base fpp (agg_lra a) Hf Hw Hst Hc Hn) as [rows [-> [-> [Hc1 Hn1]]]].
+    cbn [option_map].
+    destruct (maybe_bw_inv fp fp_inj (grouping (agg_prefix a) (agg_suffix a)) rows Hc1 Hn1) as [Hc2 Hn2].
+    rewrite (agg_stage_ref fp varpop stddevpop (agg_f a) _ rows Hc2), cmp_rows_ref.
+    destruct (sem_agg_inv fp varpop stddevpop fp_inj (agg_f a) _ Hc2 Hn2) as [Hc3 Hn3].
+    destruct (cmp_rows_inv (agg_cmp a) _ Hc3 Hn3). eauto.
+  Qed.
+
+  Theorem topk_shortcut_correct c base t fin p :
+    analyze_m15 (STopK t) = true -> plan_metric (STopK t) fin = Some p ->
+    0 < c_step_ns c -> consistent base -> nonneg base ->
+    exists out inner kept,
+      sem p c base = Some out /\
+      inner_ref (tk_inner t) (map entry_of base) = Some (map strip inner) /\
+      topk_spec (tk_len t) (tk_top t) inner kept /\
+      map strip out = ref_step (c_step_ns c) (get_duration (STopK t)) (ref_cmp (tk_cmp t) (map strip kept)).
+  Proof.
+    intros Ha Hp Hs Hc Hn. pose proof Ha as Ha'. unfold analyze_m15 in Ha'.
+    pose proof (analyze_m15_whole_slots (STopK t) Ha) as Hw.
+    unfold plan_metric in Hp. rewrite Ha in Hp. cbv zeta in Hp.
+    cbn [first_lra stream_selector plan_m15 bind] in *. unfold tk_inner. cbn [get_duration].
+    set (fpp := plan_ts _ _ _) in Hp.
+    assert (Hinner : exists X wl rows, (match tk_arg t with TKLra l => Some (m15_lra fpp l, false) | TKAgg a => Some (m15_agg fpp a) | TKQuantile _ => None end) = Some (X, wl) /\
+              sem X c base = Some rows /\
+              inner_ref (match tk_arg t with TKLra l => SLra l | TKAgg a => SAgg a | TKQuantile q => SQuantile q end) (map entry_of base) = Some (map strip rows) /\
+              consistent rows /\ nonneg rows).
+    { destruct (tk_arg t) as [l|a|q]; [| |discriminate].
+      - rewrite !andb_true_iff in Ha'. destruct Ha' as [[[Hf _] _] Hst].
+        destruct (m15_lra_correct c base fpp l Hf Hw Hst Hc Hn) as [rows [E1 [E2 [Hc1 Hn1]]]].
+        exists (m15_lra fpp l), false, rows. cbn [inner_ref]. auto.
+      - rewrite !andb_true_iff in Ha'. destruct Ha' as [[[Hf _] _] Hst].
+        destruct (m15_agg_correct c base fpp a Hf Hw Hst Hc Hn) as [rows [E1 [E2 [Hc1 Hn1]]]].
+        exists (fst (m15_agg fpp a)), (snd (m15_agg fpp a)), rows. cbn [inner_ref]. rewrite <- surjective_pairing. auto. }
+    destruct Hinner as [X [wl [inner [EX [Esem [Eref [Hc1 Hn1]]]]]]]. rewrite EX in Hp.
+    unfold plan_topk in Hp. destruct (Z.ltb (tk_len t) 0); [discriminate|]. cbn [bind] in Hp.
+    inversion Hp; subst p; clear Hp.
+    match goal with |- context [PMainFinalizer (if ?b then _ else _) true fin] => rewrite (sem_tail c base b) end.
+    rewrite sem_cmp_opt. cbn [LogqlMetricSem.sem]. rewrite Esem. cbn [option_map].
+    eexists. exists inner, (sem_topk (tk_len t) (tk_top t) inner). split; [reflexivity|]. split; [exact Eref|]. split; [apply sem_topk_spec|].
+    assert (Hfrom : forall r, In r (sem_topk (tk_len t) (tk_top t) inner) ->
+                    exists h, In h inner /\ r_fp r = r_fp h /\ r_labels r = r_labels h /\ r_ts r = r_ts h) by apply sem_topk_from.
+    pose proof (consistent_from _ _ Hc1 Hfrom) as Hc2. pose proof (nonneg_from _ _ Hn1 Hfrom) as Hn2.
+    destruct (cmp_rows_inv (tk_cmp t) _ Hc2 Hn2) as [Hc3 Hn3].
+    rewrite cmp_rows_ref. unfold post_step.
+    assert (Ed : (match tk_arg t with TKLra l => lra_dur_ns l | TKAgg a => lra_dur_ns (agg_lra a) | TKQuantile q => q_dur_ns q end)
+                 = get_duration (STopK t)) by reflexivity.
+    symmetry. now apply step_stage.
+  Qed.
 End CHAIN.
 
 (* hypotheses of metric_correct are met by a concrete query: sum by (a) (rate({a="b"} | json x="x" [5s]) > 1), step 15 s,
@@ -1378,3 +1438,16 @@ Theorem simple_filters_applied ms ppl :
   fp_label_filters (plan_ts ms ppl (simple_ops ppl)) =
   flat_map (fun sb => match fst sb, snd sb with PLabelFilter f, true => [f] | _, _ => [] end) (combine ppl (simple_ops ppl)).
 Proof. unfold plan_ts. now rewrite plan_ts_flagged. Qed.
+
+(* hypotheses of topk_correct / topk_shortcut_correct are met: topk(2, sum by (a) (rate({a="b"} | json x="x" [5s]) > 1)) on the
+   regular path, bottomk(1, sum by (a) (rate({a="b"} | level="x" |= "" [1m]))) on the roll-up path *)
+Definition ex_topk : topk :=
+  {| tk_top := true; tk_len := 2; tk_arg := match ex_script with SAgg a => TKAgg a | _ => TKQuantile {| q_param := ""; q_prefix := None; q_sel := ex_sel; q_dur_ns := 1; q_suffix := None; q_cmp := None |} end; tk_cmp := None |}.
+Definition ex_topk_short : topk :=
+  {| tk_top := false; tk_len := 1; tk_arg := match ex_short with SAgg a => TKAgg a | _ => TKQuantile {| q_param := ""; q_prefix := None; q_sel := ex_sel; q_dur_ns := 1; q_suffix := None; q_cmp := None |} end; tk_cmp := None |}.
+Example topk_hyp :
+  analyze_m15 (STopK ex_topk) = false /\ (exists p, plan_metric (STopK ex_topk) true = Some p) /\ script_ok (tk_inner ex_topk) /\
+  analyze_m15 (STopK ex_topk_short) = true /\ (exists p, plan_metric (STopK ex_topk_short) true = Some p).
+Proof.
+  split; [reflexivity|]. split; [eexists; reflexivity|]. split; [cbv; reflexivity|]. split; [reflexivity|eexists; reflexivity].
+Qed.
